@@ -259,6 +259,20 @@ func buildRestoreFile(p *Program, tier string) ([]*Unit, []UnitError) {
 				o.Guard = "true"
 			}
 		}
+		// C11: RestoreFile registers nodes for the tree of the file it was given and, with Extras, for the
+		// declarations recorded by restored objects — nothing else (no restoreNode call outside those)
+		nRestore := 0
+		for i := range ex.trace {
+			ev := &ex.trace[i]
+			if ev.Kind != "call" || ev.Depth != 0 || ev.Callee != fr("restoreNode") {
+				continue
+			}
+			nRestore++
+			env := envAt(ev.St)
+			env.vars["$n"] = ev.Args[1]
+			ex.obligeSpec(env, fmt.Sprintf("%s#maps:restores_the_file_or_a_recorded_declaration@%d", name, nRestore), "schema", ev.Guard,
+				"(typeof($n) == type(*dst.File) && ref($n) == r.file) || r.Extras", nil)
+		}
 		// C18, deferred pass: the Decl / Data link stored into a restored object is the node map's
 		// counterpart of the dst node recorded for it (still registered when the link is stored)
 		nLink := 0
